@@ -31,7 +31,8 @@ Definition rnd64 (q : Q) : option dy :=
   let E := if ge then E0 else E0 - 1 in
   let ue := Z.max (E - 52) (-1074) in
   let mant := if 0 <=? ue then rhe a (d * 2 ^ ue) else rhe (a * 2 ^ (- ue)) d in
-  if 2 ^ 1024 <=? mant * (if 0 <=? ue then 2 ^ ue else 1) then None else
+  (* overflow is only possible near the top of the exponent range; the test is skipped elsewhere (2^1024 is costly to build) *)
+  if (if 1023 <=? E then 2 ^ 1024 <=? mant * (if 0 <=? ue then 2 ^ ue else 1) else false) then None else
   Some (canon (Z.sgn n * mant) ue).
 
 Definition dy_of_fval (f : fval) : option dy :=
